@@ -77,6 +77,8 @@ def gen_traces(args):
         elif r < 0.4:
             thr_type = "relative"
             thr = (int(rng.integers(1, 8)), 8)
+        if rng.random() < 0.15:
+            kw["progress_bar"] = True            # the reporting wrapper around the selection loop (TQDM_DISABLE=1 silences it)
         try:
             obj = cls(**kw)
         except Exception:
